@@ -212,7 +212,7 @@ func TestVerifC11(t *testing.T) {
 	// multi-block lists
 	nMulti := 60
 	if verifThorough() {
-		nMulti = 3000
+		nMulti = 10000
 	}
 	for i := 0; i < nMulti; i++ {
 		var blocks []c11Block
@@ -365,7 +365,7 @@ func TestVerifC11(t *testing.T) {
 		[]byte{0x04, 0x02, 0x0a, 0x00})
 	nGarbage := 100
 	if verifThorough() {
-		nGarbage = 20000
+		nGarbage = 100000
 	}
 	good, _ := asn1.Marshal([]fam{{AddressFamily: []byte{0, 1, 1}, Addresses: []asn1.BitString{{Bytes: []byte{10, 20}, BitLength: 16}}}})
 	for i := 0; i < nGarbage; i++ {
